@@ -82,6 +82,7 @@ type FnEnc struct {
 	fresh    int
 	cur      State
 	curBlock *ssa.BasicBlock
+	curIdx   int // index of the instruction being encoded in curBlock
 	curGuard string
 	initState State
 	localRefs map[string]string // heap base -> list of non-escaped local refs (by ref term)
@@ -107,6 +108,19 @@ type FnEnc struct {
 type localRef struct {
 	heap string
 	ref  string
+	esc  *escInfo // nil: the object never escapes; otherwise the program points from which it may have escaped
+}
+
+// escInfo: for each block, the index of the first instruction at which the object may already be reachable by code
+// outside this function (blocks not listed: not escaped anywhere in them).
+type escInfo struct{ first map[*ssa.BasicBlock]int }
+
+func (x *escInfo) escapedAt(b *ssa.BasicBlock, idx int) bool {
+	if x == nil {
+		return false
+	}
+	f, ok := x.first[b]
+	return ok && idx >= f
 }
 
 type debugBinding struct {
